@@ -17,7 +17,8 @@ for f in sorted(glob.glob(os.path.join(ROOT, "seeded", "*", "meta.json"))):
     for p in fired[:1]:
         ks = m["checks"][p]["violation_keys"]
         key = ks[0].split(" occurrences")[0] if ks else ""
-    rows.append("| %s | %s | %s | %s | `%s` |" % (name, what, ", ".join(fired) or "-", ", ".join(missed) or "-", key))
+    caught = ", ".join(fired) or ("none - judged out of scope: " + m["judged_out_of_scope"].replace("|", "/") if m.get("judged_out_of_scope") else "-")
+    rows.append("| %s | %s | %s | %s | `%s` |" % (name, what, caught, ", ".join(missed) or "-", key))
 print("| seeded change | what it does | caught by (tier in meta.json) | tried, silent | first violation key |")
 print("|---|---|---|---|---|")
 print("\n".join(rows))
